@@ -65,7 +65,7 @@ def check_case(case, col=None):
     res = c08.run_history(case, logs=case.get('logs') or [])
     check_logs(case, res)
     nreads = sum(1 for op in case['ops'] if op[0] == 'read')
-    nsends = sum(1 for op in case['ops'] if op[0] != 'read')
+    nsends = sum(1 for op in case['ops'] if op[0] not in ('read', 'poll'))
     nt = nreads >= 2 and nsends >= 2 and len(case.get('logs') or []) >= 2
     if col is not None:
         col.label('transport=' + case['transport'])
